@@ -1034,6 +1034,7 @@ class RouterInterface(IPWiredNetworkInterface):
             self.pcap.capture_inbound(frame)
             # If this destination or is broadcast
             if frame.ethernet.dst_mac_addr == self.mac_address or frame.ethernet.dst_mac_addr == "ff:ff:ff:ff:ff:ff":
+                super().receive_frame(frame)  # NMNE / traffic capture of the base interface, as a NIC does
                 self._connected_node.receive_frame(frame=frame, from_network_interface=self)
                 return True
         return False
